@@ -845,6 +845,11 @@ pub fn mutate_header(rng: &mut Rng, b: &[u8]) -> Vec<u8> {
             // a container-section header that announces zero containers
             if let Some(d) = pos_data {
                 v.splice(d..d, [0x03, 0x00, 0x00]);
+                // keep the total length what a decoder that skips these bytes would expect
+                if rng.chance(2, 3) && v.len() > d + 10 {
+                    let n = v.len() - 3;
+                    v.truncate(n);
+                }
             }
         }
         2 => {
